@@ -67,4 +67,21 @@ var specs = map[string]*propSpec{
 		},
 		ExpectProbes: []string{"datfile_rollover", "datfile_removed", "reopen", "concurrent_phases", "invalid_written_block", "invalid_queued_block", "readd_as_trusted"},
 	},
+	"C20": {
+		ID: "C20", Harness: "memsim", Level: "exploration", Chunk: 20, HangIsViolation: false,
+		Quick:    tierParams{Runs: 1200, BudgetS: 60, PerRunS: 120, RaceRuns: 60, RaceBudgetS: 30, ShrinkAttempts: 200, ShrinkS: 60},
+		Thorough: tierParams{Runs: 40000, BudgetS: 900, PerRunS: 300, RaceRuns: 2000, RaceBudgetS: 300, ShrinkAttempts: 600, ShrinkS: 240},
+		Rule: "one case = 1-16 simulated client goroutines issuing Malloc(size)/verify/Free (sizes at every class boundary +-1, 0, tiny, private-mapping path up to 200 KiB; optionally concentrated on three hot sizes), barriers, hand-over of allocations between goroutines, bursts that fragment a big size class beyond the defragmentation threshold followed by DefragAllImproved with 0-3 concurrent readers, + scheduler seed. Oracle: shadow table (length, capacity, data pointer = header+24, fill pattern derived from the allocation id, pairwise disjoint extents, Allocs == live, relocate exactly once per moved allocation with the new location already holding the bytes, untouched non-moved allocations). distinct_nontrivial = distinct (schedule-trace hash, final-state hash) among runs with >=2 goroutine switches.",
+		Components: map[string][]string{
+			"real":      {"lib/others/memory (all files, instrumented; real mmap/munmap)"},
+			"simulated": append([]string{"client goroutines, readers during defragmentation"}, commonSim...),
+			"restated":  {"the reader/relocation locking of UnspentDB is restated as one RWMutex around the shadow table"},
+		},
+		Assumptions: []string{
+			"DefragAllImproved runs with no concurrent Malloc/Free (its documented contract); readers of live slices are concurrent",
+			"the race detector does not shadow mmap'ed memory: races on slot contents are visible only through the pattern oracle",
+			"a fault (SIGSEGV) in a harness goroutine becomes a panic (SetPanicOnFault) and is reported; elsewhere it kills the child and is reported after a confirming re-run",
+		},
+		ExpectProbes: []string{"concurrent_phases", "fragmentation_burst", "defrag_moved_records", "defrag_passes_noop", "readers_during_defrag", "handover"},
+	},
 }
